@@ -63,6 +63,14 @@ TABLE = {
  "C18": [("Proofs/StructBound", n) for n in ["pop_bound_sound", "pop_bound_bounded", "core_bounded_crun", "view_bounded_state_after", "sma_pop", "cyber_pop"]] +
         [("Proofs/StructSched", n) for n in ["sched_pop_bound", "sched_pop_bounded"]],
 }
+EXTRA6 = {
+ "C12": [("Proofs/Pow2P", n) for n in ['sma_pow2_flx', 'ema_pow2_flx', 'ema_alpha_pow2_flx', 'cumulative_pow2_flx', 'min_pow2_flx', 'max_pow2_flx', 'rsi_pow2_flx', 'myrsi_pow2_flx', 'roc_pow2_flx', 'hln_pow2_flx', 'cog_pow2_flx', 'welford_pow2_flx', 'welford_mean_pow2_flx', 'vst_pow2_flx', 'vst_flat_pow2_flx', 'vsct_pow2_flx', 'alma_pow2_flx', 'ss_pow2_flx', 'laguerre_pow2_flx', 'roofing_pow2_flx', 'cyber_pow2_flx', 'drawdown_pow2_flx', 'lnret_pow2_flx', 'entropy_pow2_flx', 'lrsi_pow2_flx', 'trendflex_pow2_flx', 'reflex_pow2_flx', 'net_pow2_flx', 'cti_pow2_flx']] +
+        [("Proofs/Pow2Flx", n) for n in ["round_FLX_mult_bpow", "flx_rnd_pow2", "b64_round_flx", "b64_round_not_pow2_invariant"]],
+}
+EXTRA5 = {
+ "C11": [("Proofs/LitP", n) for n in ["laguerre_lit_equiv", "lrsi_lit_equiv", "cyber_lit_refines", "cyber_lit_equiv", "cyber_lit_equiv_R", "sim_mrun_wrap"]],
+ "C18": [("Proofs/LitP", n) for n in ["laguerre_lit_pop", "lrsi_lit_pop", "cyber_lit_pop"]],
+}
 EXTRA4 = {
  "C16": [("Proofs/Flt2P", n) for n in ["ema_wfl_err", "ema_drift", "wr_mean_drift", "wr_mean_drift_sharp", "wr_mean_linear_growth"]] +
         [("Proofs/Flt2B64", n) for n in ["ema_drift_b64", "wr_mean_drift_b64", "ema_drift_b64_1e6", "wr_mean_drift_b64_1e6"]],
@@ -139,7 +147,7 @@ def header_of(path, name):
     return " ".join(m.group(1).split())
 
 def _merge_extra():
-    for ex in (EXTRA2, EXTRA3, EXTRA4):
+    for ex in (EXTRA2, EXTRA3, EXTRA4, EXTRA5, EXTRA6):
         for k, v in ex.items():
             EXTRA[k] = EXTRA.get(k, []) + v
 
